@@ -17,7 +17,7 @@ def run(ctx):
     fam = ctx.tlc_family("FamC03", constants={"Tier": '"%s"' % ctx.tier})
     ctx.exhaustive["FamC03"] = True
     failures = progflow.judge(ctx, fam, "fam")
-    n = 150 if ctx.tier == "quick" else 2500
+    n = 300 if ctx.tier == "quick" else 3000
     failures += progflow.judge(ctx, progflow.generate(ctx, "slices", n), "gen")
     failures += corpus.judge(ctx, "C03")
     failures += comprun.judge(ctx, True)
